@@ -30,7 +30,40 @@ def lookupDem (dims : Nat) (case : Json) (id : String) : R (Option Dem) := do
     let tour ← arrF (routes.getD ri Json.null) "tour"
     parseDem dims (fldD (tour.getD i Json.null) "dem" Json.null)
 
+/-- operator histories (every shipped search operator; shared with the C04 harness): at every hand-over every cached
+    value - per route with its schedule, per solution, and the fitness - equals strip-and-recompute, and no route is stale -/
+def handleHistory (impl : Json) : R (List (String × Json)) := do
+  match impl.getObjVal? "error" with
+  | .ok e => return [("model", Json.null), ("oracle", Json.mkObj []), ("info", Json.mkObj [("skipped", e)])]
+  | .error _ => pure ()
+  let steps ← arrF impl "history"
+  let mut okCaches := true
+  let mut okStale := true
+  let mut bad : Array Json := #[]
+  let mut pairs := 0
+  for st in steps do
+    let op ← strF st "op"
+    match st.getObjVal? "caches" with
+    | .ok (.arr cs) =>
+      for c in cs do
+        pairs := pairs + 1
+        match c with
+        | .arr #[x, y] => if x != y then
+                            okCaches := false
+                            bad := bad.push (Json.str op)
+        | _ => pure ()
+    | _ => pure ()
+    match st.getObjVal? "stale" with
+    | .ok (.bool true) => okStale := false
+    | _ => pure ()
+  return [("model", Json.null),
+          ("oracle", Json.mkObj [("operator_outputs_equal_recomputation", Json.bool okCaches),
+                                 ("operator_outputs_not_stale", Json.bool okStale)]),
+          ("info", Json.mkObj [("history_steps", jNat steps.length), ("cache_pairs", jNat pairs), ("bad", Json.arr (bad.extract 0 6))])]
+
 def handle (j : Json) : R (List (String × Json)) := do
+  if (fldD j "k" Json.null) == Json.str "history" then
+    return (← handleHistory (← fld j "impl"))
   let m : Mat := { n := ← natF j "n", dur := ← listF asInt j "dur", dist := ← listF asInt j "dist" }
   let obj := if (← strF j "obj") == "cost" then Objective.cost else Objective.distance
   let routes ← listF (Drv.C15Parse.parseRouteCtx m obj) j "routes"
